@@ -191,8 +191,8 @@ def l1_programs(coro, stride):
     return progs
 
 
-def random_programs(seed, n, coro):
-    progs = gen.generate(seed, n, coro, exhaustive_l1=False)
+def random_programs(seed, n, coro, max_len=4):
+    progs = gen.generate(seed, n, coro, max_len=max_len, exhaustive_l1=False)
     return progs
 
 
@@ -203,7 +203,7 @@ if __name__ == "__main__":
     coro = variant != "plain17"
     t0 = time.time()
     progs = l1_programs(coro, stride)
-    r = random_programs(1, n, coro)
+    r = random_programs(1, n, coro, int(os.environ.get("PG_MAX_LEN", "4")))
     base = max(p.id for p in progs) + 1 if progs else 0
     print("programs: %d exhaustive-L1 (stride %d), %d random" % (len(progs), stride, len(r)))
     for tag, ps in (("l1", progs), ("rnd", r)):
